@@ -558,6 +558,135 @@ Fixpoint deriv (x : id) (e : expr) : option expr :=
   end.
 
 (* ==================================================================================================== *)
+(* Statements.subs({symbol: expression}) on assignments (the compartmental system is left alone: the    *)
+(* theorems require that the substituted symbol is not among its rhs symbols)                           *)
+(* ==================================================================================================== *)
+Definition subs_stmt_sym (s : id) (t : expr) (st : stmt) : stmt :=
+  match st with Assign x e => Assign x (subs s t e) | Ode a r => Ode a r end.
+Definition subs_stmts_sym (s : id) (t : expr) (l : list stmt) : list stmt := map (subs_stmt_sym s t) l.
+
+(* ==================================================================================================== *)
+(* add_allometry: for each (parameter, exponent) in turn, P = P * (X / Z) ** T after P's last assignment  *)
+(* ==================================================================================================== *)
+Definition allometry_stmt (T : templates) (p th var : id) (ref : Q) : stmt :=
+  Assign p (subs_map [(s_p, Sym p); (s_var, Sym var); (s_ref, Num ref); (s_allo, Sym th)] (t_allometry T)).
+
+Definition add_allometry1 (T : templates) (var : id) (ref : Q) (l : list stmt) (pt : id * id) : list stmt :=
+  match find_assignment_index l (fst pt) with
+  | Some i => firstn (S i) l ++ allometry_stmt T (fst pt) (snd pt) var ref :: skipn (S i) l
+  | None => l     (* sset.find_assignment_index(p) is None: the slice arithmetic of the code raises; never reached
+                     for parameters found by find_clearance/volume_parameters *)
+  end.
+Definition add_allometry (T : templates) (var : id) (ref : Q) (params : list (id * id)) (l : list stmt) : list stmt :=
+  fold_left (add_allometry1 T var ref) params l.
+
+(* ==================================================================================================== *)
+(* add_iov (_add_iov_declare_etas): IOV_i = 0; IOV_i = Piecewise((eta_i_k, Eq(level_k, OCC))...);      *)
+(* ETAI_i = ETA_i + IOV_i; every statement: ETA_i := ETAI_i.   Result: iovs + etais + sset.             *)
+(* remove_iov: every statement: iov eta := 0.                                                           *)
+(* ==================================================================================================== *)
+Record iov_item := { ie_eta : id; ie_iov : id; ie_etai : id; ie_levels : list (Q * id) }.
+
+Definition iov_piecewise (occ : id) (levels : list (Q * id)) : expr :=
+  piecewise_of (map (fun lv : Q * id => (Sym (snd lv), CRel OEq (Num (fst lv)) (Sym occ))) levels).
+Definition iov_decls (occ : id) (items : list iov_item) : list stmt :=
+  flat_map (fun it => [Assign (ie_iov it) (Num 0); Assign (ie_iov it) (iov_piecewise occ (ie_levels it))]) items.
+Definition etai_decls (items : list iov_item) : list stmt :=
+  map (fun it => Assign (ie_etai it) (Add (Sym (ie_eta it)) (Sym (ie_iov it)))) items.
+Definition add_iov (occ : id) (items : list iov_item) (l : list stmt) : list stmt :=
+  iov_decls occ items ++ etai_decls items ++
+  fold_left (fun acc it => subs_stmts_sym (ie_eta it) (Sym (ie_etai it)) acc) items l.
+Definition remove_iov (iov_etas : list id) (l : list stmt) : list stmt :=
+  fold_left (fun acc e => subs_stmts_sym e (Num 0) acc) iov_etas l.
+
+(* the IOV eta of the row's occasion *)
+Definition iov_value (r : env) (occ : id) (levels : list (Q * id)) : option Q :=
+  match r occ with
+  | Some o => match find (fun lv : Q * id => Qeq_bool (fst lv) o) levels with
+              | Some lv => r (snd lv)
+              | None => None
+              end
+  | None => None
+  end.
+
+(* ==================================================================================================== *)
+(* transform_blq, methods M3 / M4 (_m3_m4_method): statements placed where Y was                          *)
+(*   SD (computed by sympy: given), [LLOQ = value], F_FLAG = {0 above, 1 otherwise},                      *)
+(*   M3: Y = {y above; PHI((LLOQ - ipred)/SD) otherwise}                                                  *)
+(*   M4: CUMD = PHI((LLOQ - ipred)/SD); CUMDZ = PHI(-ipred/SD); Y = {y above; (CUMD-CUMDZ)/(1-CUMDZ)}     *)
+(* ==================================================================================================== *)
+Definition F_PHI : id := 16%positive.   (* normal cdf; exported through the unused slot of Base/Interp (gamma) *)
+Record blq_args := {
+  b_y : id; b_sd_stmt : stmt; b_sd : id; b_lloq_stmt : option stmt; b_level : expr;
+  b_above : cond;                        (* DV >= LLOQ  |  BLQ = 0 *)
+  b_fflag : id; b_cumd : id; b_cumdz : id; b_epsilons : list id; b_m4 : bool
+}.
+Definition blq_new_stmts (a : blq_args) (yexpr : expr) : list stmt :=
+  let ipred := zero_eps (b_epsilons a) yexpr in
+  let cumd := Fn1 F_PHI (Div (Add (b_level a) (Neg ipred)) (Sym (b_sd a))) in
+  [b_sd_stmt a] ++ (match b_lloq_stmt a with Some s => [s] | None => [] end) ++
+  [Assign (b_fflag a) (PwCons (b_above a) (Num 0) (PwCons CTrue (Num 1) PwNil))] ++
+  (if b_m4 a
+   then [Assign (b_cumd a) cumd;
+         Assign (b_cumdz a) (Fn1 F_PHI (Div (Neg ipred) (Sym (b_sd a))));
+         Assign (b_y a) (PwCons (b_above a) yexpr
+                          (PwCons CTrue (Div (Add (Sym (b_cumd a)) (Neg (Sym (b_cumdz a))))
+                                             (Add (Num 1) (Neg (Sym (b_cumdz a))))) PwNil))]
+   else [Assign (b_y a) (PwCons (b_above a) yexpr (PwCons CTrue cumd PwNil))]).
+Definition transform_blq (a : blq_args) (l : list stmt) : option (list stmt) :=
+  match find_assignment_index l (b_y a) with
+  | Some i => match nths l i with
+              | Assign _ yexpr => Some (firstn i l ++ blq_new_stmts a yexpr ++ skipn (S i) l)
+              | _ => None
+              end
+  | None => None
+  end.
+Definition blq_fresh (a : blq_args) : list id :=
+  b_fflag a :: b_cumd a :: b_cumdz a :: defs (b_sd_stmt a) ++ (match b_lloq_stmt a with Some s => defs s | None => [] end).
+
+(* ==================================================================================================== *)
+(* _update_numerators: numerators of the transit rates (each rate given as numerator / denominator,      *)
+(* `as_numer_denom` being sympy's; a symbolic numerator is looked up among the assignments)              *)
+(* ==================================================================================================== *)
+Inductive numer := NInt (z : Q) | NSym (s : id) | NOther.
+Record trate := { tr_numer : numer; tr_denom : expr }.
+(* statements that define rate symbols: symbol -> (numerator, denominator) of its expression *)
+Definition rate_defs := list (id * (numer * expr)).
+Fixpoint lookup_rate (d : rate_defs) (s : id) : option (numer * expr) :=
+  match d with [] => None | (k, v) :: tl => if Pos.eqb k s then Some v else lookup_rate tl s end.
+Definition set_rate (d : rate_defs) (s : id) (v : numer * expr) : rate_defs :=
+  map (fun kv => if Pos.eqb (fst kv) s then (fst kv, v) else kv) d.
+
+(* (the code skips the rewrite when the numerator already is the new one: the same result) *)
+Definition update_direct (newn : Q) (rt : trate) : trate :=
+  match tr_numer rt with NInt _ => {| tr_numer := NInt newn; tr_denom := tr_denom rt |} | _ => rt end.
+Definition update_defs (newn : Q) (rates : list trate) (d : rate_defs) : rate_defs :=
+  fold_left (fun dd rt =>
+    match tr_numer rt with
+    | NSym s => match lookup_rate dd s with
+                | Some (NInt _, den) => set_rate dd s (NInt newn, den)
+                | _ => dd
+                end
+    | _ => dd
+    end) rates d.
+Definition update_numerators (n : nat) (rates : list trate) (d : rate_defs) : list trate * rate_defs :=
+  let newn := inject_Z (Z.of_nat n) in
+  (map (update_direct newn) rates, update_defs newn rates d).
+
+(* the rate expression a transit compartment ends up with *)
+Definition rate_value (d : rate_defs) (rt : trate) : option (numer * expr) :=
+  match tr_numer rt with
+  | NSym s => lookup_rate d s
+  | nm => Some (nm, tr_denom rt)
+  end.
+(* the detector find_transit_compartments reports nothing for a lone transit compartment; _update_numerators
+   loops over the DETECTED compartments only *)
+Definition detected_transits (chain : nat) : nat := if Nat.eqb chain 1 then 0 else chain.
+Definition rates_after_update (rates : list trate) (d : rate_defs) : list trate * rate_defs :=
+  let k := detected_transits (length rates) in
+  if Nat.eqb k 0 then (rates, d) else update_numerators k rates d.
+
+(* ==================================================================================================== *)
 (* statistics: median of the per-individual medians (pandas groupby('ID')[cov].median().median())       *)
 (* ==================================================================================================== *)
 Fixpoint qinsert (x : Q) (l : list Q) : list Q :=
